@@ -696,6 +696,23 @@ static std::map<std::string, std::string> &vfs()
   static std::map<std::string, std::string> m;
   return m;
 }
+// paths that exist but cannot be read right now (fopen fails with EIO)
+static std::set<std::string> &vfs_unreadable()
+{
+  static std::set<std::string> m;
+  return m;
+}
+static std::string resolv_text(const std::vector<std::string> &doms, int ndots)
+{
+  std::string t;
+  if (!doms.empty()) {
+    t += "search";
+    for (auto &d : doms) t += " " + d;
+    t += "\n";
+  }
+  t += "options ndots:" + std::to_string(ndots) + "\n";
+  return t;
+}
 
 bool World::init()
 {
@@ -704,6 +721,10 @@ bool World::init()
   vf::ledger().fail_at = fail_at;
   if (cfg->whole_second_clock) now_us = 1000000000000LL;
   vfs().clear();
+  vfs_unreadable().clear();
+  eff_domains = cfg->domains;
+  eff_ndots   = cfg->ndots;
+  if (cfg->sysconf_search) vfs()["/vfs/resolv.conf"] = resolv_text(cfg->domains, cfg->ndots);
   if (!cfg->hosts.empty()) vfs()["/vfs/hosts"] = cfg->hosts;
   if (!cfg->hostaliases.empty()) {
     vfs()["/vfs/hostaliases"] = cfg->hostaliases;
@@ -730,6 +751,7 @@ bool World::init()
   o.qcache_max_ttl  = (unsigned)cfg->qcache_max_ttl;
   o.hosts_path      = (char *)"/vfs/hosts";
   o.resolvconf_path = (char *)"/vfs/resolv.conf";
+  if (cfg->sysconf_search) mask &= ~(ARES_OPT_NDOTS | ARES_OPT_DOMAINS);
   if (cfg->rotate) mask |= ARES_OPT_ROTATE;
   else mask |= ARES_OPT_NOROTATE;
   if (cfg->udp_max_queries > 0) {
@@ -1109,6 +1131,8 @@ int World::issue(int reqidx, bool from_cb)
   t.tx_at_issue  = (int)txs.size();
   t.cbmode       = from_cb ? 0 : r.cbmode;
   t.cbarg        = r.cbarg;
+  t.domains_at_issue = eff_domains;
+  t.ndots_at_issue   = eff_ndots;
   toks.push_back(t);
   ctxs.push_back(std::make_unique<CbCtx>(CbCtx{ this, t.id }));
   CbCtx *c = ctxs.back().get();
@@ -1761,9 +1785,22 @@ void World::apply(const Ev &e)
     case EV_SETSERVERS: do_setservers(e.a); break;
     case EV_REINIT:
       if (ch) {
+        // variants (only meaningful when the search configuration comes from the file): 1 = the file cannot be read
+        // while this reinit runs (it must leave the configuration alone and must not block later reinits), 2 = the file
+        // now holds another search list and ndots
+        static const std::vector<std::string> alt = { "alt.test" };
+        if (cfg->sysconf_search && e.a == 1) vfs_unreadable().insert("/vfs/resolv.conf");
+        if (cfg->sysconf_search && e.a == 2) vfs()["/vfs/resolv.conf"] = resolv_text(alt, 2);
         in_lib = true;
-        ares_reinit(ch);
+        int rc = ares_reinit(ch);
         in_lib = false;
+        log(fmt("reinit(variant %d) -> %d", e.a, rc));
+        vfs_unreadable().clear();
+        if (cfg->sysconf_search && e.a == 2 && rc == ARES_SUCCESS) {
+          eff_domains = alt;
+          eff_ndots   = 2;
+          W("c12_reinit_changed_search_list");
+        }
         flush_evs.push_back(cur_ev);
       }
       break;
@@ -1969,6 +2006,10 @@ FILE *fopen(const char *path, const char *mode)
       errno = ENOENT;
       return nullptr;
     }
+    if (exa::vfs_unreadable().count(path)) {
+      errno = EIO;
+      return nullptr;
+    }
     if (it->second.empty()) return fmemopen((void *)"", 0, "r") ?: real("/dev/null", "r");
     return fmemopen((void *)it->second.data(), it->second.size(), "r");
   }
@@ -2053,7 +2094,18 @@ std::string World::state_key()
   // states that differ only in "now" do not have the same future (found by the de-duplication audit)
   snprintf(b, sizeof b, "W now=%lld destroyed=%d src=%d pw=%d dev=%d nreq=%d faults=", (long long)now_us, (int)destroyed, src_variant, (int)pending_write_notified, deviations, nreq);
   s += b;
-  for (int i = 0; i < FS_NSITES; i++) s += std::to_string(fault[i]);
+  for (int i = 0; i < FS_NSITES; i++) s += std::to_string(fault[i]) + (fault[i] ? "+" + std::to_string(fault_skip[i]) : "");
+  // harness-side expectations that decide the future: the search configuration the reference currently assumes and the
+  // content of the configuration file a later reinit would read
+  s += " ndots=" + std::to_string(eff_ndots) + " doms=";
+  for (auto &d : eff_domains) s += d + ",";
+  {
+    auto it = vfs().find("/vfs/resolv.conf");
+    if (it != vfs().end()) {
+      snprintf(b, sizeof b, " conf=%llx", (unsigned long long)vf::fnv64((const unsigned char *)it->second.data(), it->second.size()));
+      s += b;
+    }
+  }
   s += "\n";
   for (auto &x : socks) {
     if (!x->open) continue;
